@@ -20,6 +20,9 @@ type FakeMongo struct {
 	colls map[string][]bson.M // "db.coll" -> docs
 	ln    net.Listener
 	Ops   []string
+	// AfterFind, when set, runs (under the lock) after a find has copied the matching document into its answer: a store
+	// that changes between two reads (an operator editing a tariff while requests are served)
+	AfterFind func(ns string, doc bson.M)
 }
 
 func StartFakeMongo() (*FakeMongo, string, error) {
@@ -211,7 +214,14 @@ func (f *FakeMongo) handle(db string, cmd bson.D, seqs map[string][]bsoncore.Doc
 		f.mu.Lock()
 		for _, d := range f.colls[ns] {
 			if match(d, filter) {
-				batch = append(batch, d)
+				cp := bson.M{}
+				for k, v := range d {
+					cp[k] = v
+				}
+				batch = append(batch, cp)
+				if f.AfterFind != nil {
+					f.AfterFind(ns, d)
+				}
 				break
 			}
 		}
